@@ -139,6 +139,13 @@ class Sim:
         time.monotonic = clock
         try:
             engines = [iteration.Engine(name=f"e{i}") for i in range(self.sc["engines"])]
+            if self.sc.get("clone") and len(engines) > 1:
+                import copy
+                import pickle
+
+                # engines made by copying another engine (per-worker copies) are engines too
+                engines[0].get_relation_name("warm")
+                engines[1] = copy.deepcopy(engines[0]) if self.sc["clone"] == "deepcopy" else pickle.loads(pickle.dumps(engines[0]))
             leaves = [e.make_leaf(set(), iteration.RowSequence([]), name=f"base{i}") for i, e in enumerate(engines)]
             n = len(self.sc["threads"])
             ths = [threading.Thread(target=self.thread_main, args=(i, engines, leaves), daemon=True) for i in range(n)]
@@ -195,6 +202,7 @@ def gen_scenario(base_seed, idx, tier):
         "seed": rng.getrandbits(31), "run_index": idx, "engines": engines, "threads": threads,
         "p_switch": rng.choice([0.02, 0.1, 0.3, 0.6]), "p_switch_hot": rng.choice([0.3, 0.6, 0.9]),
         "clock_steps": rng.choice([[0.0], [0.0, 0.0, 1e-6], [0.0, 1.0, -5.0], [1e-3]]),
+        "clone": rng.choice([None, None, None, "deepcopy", "pickle"]),
     }
 
 
